@@ -147,7 +147,7 @@ def work_zoo(item):
 
 SITES = ['AddVariable', 'SetEquationRightHandSide', 'AddCashFlow-eqn', 'AddTermToEquation', 'AddSupplier-eqn', 'GenerateAssetWeighting',
          'AddGlobalEquation', 'AddVariable-self', 'AddTermToEquation-after-blob', 'AddTermToEquation-product', 'AddCashFlow-product-term', 'Equation-parsed-product']
-TEMPLATES = ['{N}', '2*{N} + 1', '({N} - 3)*{N}', '{N}/4 + LOCALX', 'max(5.0, {N})', 'max(LOCALX,{N}) - min(2.0 , {N})', 'float(LOCALX < {N})']
+TEMPLATES = ['{N}', '2*{N} + 1', '({N} - 3)*{N}', '{N}/4 + LOCALX', 'max(5.0, {N})', 'max(LOCALX,{N}) - min(2.0 , {N})', 'float(LOCALX < {N})', '({N}\n      + 2*LOCALX)']
 
 
 def site_cases(tier):
